@@ -195,6 +195,16 @@ class Dict(Sort):
         return f"Dict[Str,{self.val}]"
 
 
+class BDictSort(Sort):
+    """dict[Ballot, Fraction] (insertion ordered; lookup through Ballot.__hash__/__eq__)"""
+
+    def __repr__(self):
+        return "BDict"
+
+
+BDict = BDictSort()
+
+
 class TBDict(Sort):
     """dict[frozenset, tuple[frozenset,...]] with at most one entry (tiebreak record of a round)"""
 
@@ -275,6 +285,13 @@ class VOpt(V):
 class VDict(V):
     def __init__(self, keys, vals, val: Sort = Real, order=None):
         self.keys, self.vals, self.val, self.order = keys, vals, val, order
+
+
+class VBDict(V):
+    """dict keyed by Ballot: insertion-ordered key sequence + aligned value sequence (S-DICT)"""
+
+    def __init__(self, keys, vals):
+        self.keys, self.vals = keys, vals
 
 
 class VTBDict(V):
@@ -363,6 +380,8 @@ def fresh(sort: Sort, name: str) -> V:
         return VOpt(z3.Bool(n + "_isnone"), fresh(sort.inner, name))
     if isinstance(sort, Dict):
         return VDict(z3.Const(n + "_keys", CSetS), z3.Const(n + "_vals", RMapS), sort.val)
+    if isinstance(sort, BDictSort):
+        return VBDict(z3.Const(n + "_bkeys", SeqBallot), z3.Const(n + "_bvals", z3.SeqSort(z3.RealSort())))
     if isinstance(sort, TBDict):
         return VTBDict(z3.Bool(n + "_has"), z3.Const(n + "_key", CSetS), z3.Const(n + "_val", SeqCSet))
     if isinstance(sort, Tup):
@@ -413,6 +432,8 @@ def sort_of(v: V) -> Sort:
         return Opt(sort_of(v.val))
     if isinstance(v, VDict):
         return Dict(v.val)
+    if isinstance(v, VBDict):
+        return BDict
     if isinstance(v, VTBDict):
         return TBDictS
     if isinstance(v, VTup):
